@@ -205,7 +205,7 @@ func firstLine(s string) string {
 }
 
 // fileCases is the Extra driver of the C12 check.
-func fileCases(e *Env) ([]*Obs, error) {
+func fileCases(e *Env, cov map[string]any) ([]*Obs, error) {
 	res, err := e.runTLC("lines", "MC_Lines", "INIT Init\nNEXT Next\nINVARIANT ClassesPartition\n", 1, 5*time.Minute)
 	if err != nil {
 		return nil, err
